@@ -1,24 +1,30 @@
 (** C13 - Blocking pops never lose, duplicate or strand elements or clients.
-    Statements only; proofs in Proofs/BlockingFacts.v.  Model: Model/Blocking.v (registry, wake
-    queue, Blocked states, write buffers) beside Model/Server.v; transition system, hypotheses
+    Statements only; proofs in Proofs/BlockingFacts.v, BlockingFifo.v, BlockingCons.v,
+    BlockingStrand.v.  Model: Model/Blocking.v (registry, wake queue, Blocked states, write
+    buffers, deferred input, arrival stamps) beside Model/Server.v; transition system, hypotheses
     and invariants: Spec/BlockingSpec.v.
 
-    All theorems are about EVERY state reachable through [step] from the initial state by
-    events that satisfy [ok]: any requests whatsoever from any number of connections, wake-up
-    and timeout phases at any instants, connects, disconnects - where a request is processed
-    only on a connection that is not blocked and QUIT is a disconnect.  (Blocking pops inside
-    MULTI are included since repair d076b83: they answer nil in their EXEC slot.)  The event
-    loop never ends ([c13_never_crashes], since repair e1d4020); the hypothesis
-    [b_crashed = false] of the statements below is therefore always met. *)
+    The agreement, reply and FIFO theorems are about EVERY state reachable through [step] from the
+    initial state by events that satisfy [ok]: any requests whatsoever from any number of
+    connections, wake-up and timeout phases at any instants, connects, clients going away at any
+    time (blocked or not) and the server noticing it - where a request is processed only on a
+    connection that is not blocked (what a client sends behind a blocking call waits:
+    [c13_batch_stops_at_block]) and QUIT is a disconnect.  The event loop never ends
+    ([c13_never_crashes]); the hypothesis [b_crashed = false] below is therefore always met.
+    Lazy expiry runs before every command and at the top of every wake-up; the conservation
+    histories contain no command that gives a key a deadline, which is stated
+    ([c13_no_deadlines]), not assumed. *)
 From Ferrous Require Import Base.Bytes Generated Model.Resp Model.Types Model.Strings Model.Lists
-  Model.Server Model.Blocking Spec.BlockingSpec Proofs.BlockingFacts Proofs.BlockingCons Proofs.BlockingStrand.
+  Model.Server Model.Blocking Spec.BlockingSpec Proofs.BlockingFacts Proofs.BlockingFifo Proofs.BlockingCons
+  Proofs.BlockingStrand.
 Open Scope Z_scope.
 
 (** ---- registry / connection-state agreement ---- *)
 (** the invariant: every waiter's connection is Blocked on that key with that deadline and
-    operation and has no wake-up under way; every queued wake-up's connection is Blocked on that
-    key and has no registration; at most one wake-up per connection; a Blocked connection
-    without a wake-up under way is registered on all its keys; no connection has id 0 *)
+    operation and has no wake-up under way; the connection of a queued wake-up has no
+    registration and - unless its client has gone away meanwhile - is Blocked on that key; at most
+    one wake-up per connection; a Blocked connection without a wake-up under way is registered
+    on all its keys; no connection has id 0; a connection whose client has gone is no connection *)
 Theorem c13_invariant : forall pw st, reach pw st -> inv st.
 Proof. exact reach_inv. Qed.
 Theorem c13_agreement : forall pw st, reach pw st -> b_crashed (snd st) = false -> agree (snd st).
@@ -38,10 +44,12 @@ Theorem c13_blocked_is_waiting : forall pw st, reach pw st -> b_crashed (snd st)
                 /\ forall rk q, In (rk, q) (b_reg (snd st)) -> cnt c q = O).
 Proof. exact blocked_waiter. Qed.
 (** ---- no leftover registration: a connection that is not Blocked (never blocked, served,
-    timed out) has no waiter in any queue and no wake-up ---- *)
+    timed out, gone) has no waiter in any queue; a wake-up can still be under way for it only
+    when its client has gone away ---- *)
 Theorem c13_no_leftover : forall pw st, reach pw st -> b_crashed (snd st) = false ->
   forall c, zlookup c (b_blk (snd st)) = None ->
-  (forall rk, cnt c (reg_get (b_reg (snd st)) rk) = O) /\ wakes_for c (b_wake (snd st)) = [].
+  (forall rk, cnt c (reg_get (b_reg (snd st)) rk) = O) /\
+  (wakes_for c (b_wake (snd st)) = [] \/ zlookup c (s_conns (fst st)) = None).
 Proof. exact no_leftover. Qed.
 Theorem c13_one_wakeup_per_connection : forall pw st, reach pw st -> b_crashed (snd st) = false ->
   NoDup (map u_conn (b_wake (snd st))).
@@ -69,9 +77,10 @@ Theorem c13_timeout_not_early : forall pw s b now, reach pw (s, b) -> b_crashed 
     /\ (forall c, zlookup c (b_blk b) = None -> zlookup c (b_blk b') = None).
 Proof. exact timeouts_reply. Qed.
 (** the wake-up phase writes [key, element] only, only to connections that were Blocked on that
-    key, one each, and exactly the connections it unblocks are those it answers *)
-Theorem c13_wakeup_delivery : forall pw s b, reach pw (s, b) -> b_crashed b = false ->
-  let b' := snd (step (s, b) EWakeups) in
+    key (the key of the wake-up or, when that one is empty by then, another key of the call), one
+    each, and exactly the connections it unblocks are those it answers *)
+Theorem c13_wakeup_delivery : forall pw s b now, reach pw (s, b) -> b_crashed b = false ->
+  let b' := snd (step (s, b) (EWakeups now)) in
   exists new, wrote b b' new /\ NoDup (map fst new)
     /\ (forall c f, In (c, f) new -> delivery_of b c f /\ zlookup c (b_blk b') = None)
     /\ (forall c, zlookup c (b_blk b) <> None -> zlookup c (b_blk b') = None -> In c (map fst new))
@@ -81,6 +90,13 @@ Theorem c13_connect_disconnect_silent : forall s b e, b_crashed b = false ->
   (match e with EConnect _ | EDisconnect _ => True | _ => False end) ->
   b_out (snd (step (s, b) e)) = b_out b /\ b_blk (snd (step (s, b) e)) = b_blk b /\ b_wake (snd (step (s, b) e)) = b_wake b.
 Proof. exact connect_disconnect_silent. Qed.
+(** when the server notices the clients that went away nothing is written, no wake-up is made,
+    and exactly their connections stop being Blocked (c7e6509) *)
+Theorem c13_hangups_silent : forall s b, b_crashed b = false ->
+  let b' := snd (step (s, b) EHangups) in
+  b_out b' = b_out b /\ b_wake b' = b_wake b /\
+  forall c, zlookup c (b_blk b') = if existsb (Z.eqb c) (filter (noticed b) (b_dead b)) then None else zlookup c (b_blk b).
+Proof. exact hangups_silent. Qed.
 (** a blocking call that is not answered at once is Blocked with deadline = arrival + timeout,
     and with no deadline when the timeout is 0 ("forever") *)
 Theorem c13_deadline : forall left now s b c dbi parts oms rep s' b' cn,
@@ -92,52 +108,89 @@ Theorem c13_deadline : forall left now s b c dbi parts oms rep s' b' cn,
      zlookup c (b_blk b') = Some {| bl_db := dbi; bl_keys := keys; bl_dl := option_map (fun ms => now + ms) tmo; bl_left := left |}).
 Proof. exact blocking_call_deadline. Qed.
 
-(** ---- the functions the correspondence runs are sequences of these steps ---- *)
-(** process_connection: the frames of one read are EFrame steps of that connection, in order *)
-Theorem c13_batch_is_frames : forall fs now s b c,
+(** ---- requests behind a blocking call wait (939522b) ---- *)
+(** process_connection: the frames of one read are EFrame steps of that connection, in order, up
+    to and including the first one that leaves the connection Blocked; what follows it is not
+    processed but kept, in order, ahead of anything the connection had deferred before *)
+Theorem c13_batch_stops_at_block : forall fs now s b c,
   b_crashed b = false -> forallb (fun fo => negb (is_quit (fst fo))) fs = true ->
-  serve_batch now s b c fs false = run (s, b) (map (fun fo => EFrame now c (fst fo) (snd fo)) fs).
+  exists done rest, fs = done ++ rest /\
+    serve_batch now s b c fs false =
+      (fst (run (s, b) (evs_of now c done)), defer (snd (run (s, b) (evs_of now c done))) c rest) /\
+    (rest = [] \/ is_blocked (snd (run (s, b) (evs_of now c done))) c = true) /\
+    (forall d1 fo d2, done = d1 ++ fo :: d2 -> d2 <> [] ->
+       is_blocked (snd (run (s, b) (evs_of now c (d1 ++ [fo])))) c = false).
 Proof. exact serve_batch_is_run. Qed.
+(** while a connection is Blocked nothing it sent is read *)
+Theorem c13_blocked_not_read : forall now s b c fs, is_blocked b c = true -> conn_step now (s, b) (c, fs) = (s, b).
+Proof. exact blocked_not_read. Qed.
 (** one iteration of Server::run: wake-ups, reads of the connections that are not blocked, timeouts *)
 Theorem c13_iteration_phases : forall now s b, b_crashed b = false ->
   iteration now (s, b) =
-    (let sb1 := step (s, b) EWakeups in
+    (let sb1 := step (s, b) (EWakeups now) in
      if b_crashed (snd sb1) then sb1 else
      let sb2 := process_conns now (fst sb1) (snd sb1) in
      (fst sb2, process_timeouts now (snd sb2))).
 Proof. exact iteration_phases. Qed.
 
-(** ---- FIFO service per key ---- *)
-Theorem c13_fifo_join_back : forall db c left dl keys r rk,
-  exists n, reg_get (register r db c keys left dl) rk = reg_get r rk ++ repeat (mkw c dl left) n
-            /\ (n <> O <-> (fst rk = db /\ bmem (snd rk) keys = true)).
-Proof. exact fifo_join_back. Qed.
+(** ---- FIFO: served in the order they blocked ---- *)
+(** the history property.  Every registration carries the stamp of its blocking call.
+    (1) the stamp is the number of calls that blocked before it in the history; *)
+Theorem c13_fifo_stamp_counts_blocking_calls : forall pw n st, reach_n pw n st -> b_seq (snd st) = Z.of_nat n.
+Proof. exact seq_counts. Qed.
+Theorem c13_fifo_stamp_is_ordinal : forall pw n st e c, reach_n pw n st -> ok st e = true ->
+  (match e with EFrame _ c1 _ _ => c = c1 | _ => False end) -> blocks st e = true ->
+  forall t, stamp_in (snd (step st e)) c t -> t = Z.of_nat n.
+Proof. exact stamp_is_ordinal. Qed.
+(** (2) no step changes the stamp of a waiting call: what a step leaves in a queue or in the
+    wake-up queue was there before, for the same connection with the same stamp, or is the fresh
+    registration of the connection whose request was processed (a wake-up that finds nothing
+    registers the client again under its OLD stamp, 8ab686d); *)
+Theorem c13_fifo_stamps_kept : forall pw st e c t, reach pw st -> stamp_in (snd (step st e)) c t ->
+  stamp_in (snd st) c t \/
+  (match e with EFrame _ c1 _ _ => c = c1 | _ => False end /\ c <> 0 /\ b_seq (snd st) <= t < b_seq (snd (step st e))).
+Proof. exact stamps_kept. Qed.
+(** (3) in every reachable state every queue is in the order its waiters blocked, *)
+Theorem c13_fifo_queue_in_blocking_order : forall pw st db k, reach pw st ->
+  in_blocking_order (reg_get (b_reg (snd st)) (db, k)).
+Proof. exact fifo_queue_order. Qed.
+(** (4) and a push serves the head: the waiter that blocked before everybody else in the queue *)
+Theorem c13_fifo_head_blocked_first : forall pw st db k w q, reach pw st ->
+  reg_get (b_reg (snd st)) (db, k) = w :: q -> forall w', In w' q -> w_at w <= w_at w'.
+Proof. exact fifo_head_first. Qed.
 Theorem c13_fifo_serve_head : forall b db k w q,
   reg_get (b_reg b) (db, k) = w :: q ->
   let b' := notify_key_ready b db k in
-  b_wake b' = b_wake b ++ [{| u_conn := w_conn w; u_db := db; u_key := k; u_left := w_left w |}]
+  b_wake b' = b_wake b ++ [{| u_conn := w_conn w; u_db := db; u_key := k; u_left := w_left w; u_at := w_at w |}]
   /\ reg_get (b_reg b') (db, k) = filter (not_conn (w_conn w)) q
   /\ forall k2, rk_eqb (db, k2) (db, k) = false ->
        reg_get (b_reg b') (db, k2) = filter (not_conn (w_conn w)) (reg_get (b_reg b) (db, k2)).
 Proof. exact fifo_serve_head. Qed.
+(** the operations on a queue: a call joins at the back; timeouts and cleanups only take waiters out *)
+Theorem c13_fifo_join_back : forall db c left dl at_ keys r rk,
+  exists n, reg_get (register r db c keys left dl at_) rk = reg_get r rk ++ repeat (mkw c dl left at_) n
+            /\ (n <> O <-> (fst rk = db /\ bmem (snd rk) keys = true)).
+Proof. exact fifo_join_back. Qed.
 Theorem c13_fifo_timeouts_keep_order : forall now r rk,
   reg_get (snd (expire_reg now r)) rk = filter (live_w now) (reg_get r rk).
 Proof. exact fifo_expire_keeps_order. Qed.
 Theorem c13_fifo_unregister_keeps_order : forall r db c rk,
   reg_get (unregister r db c) rk = if fst rk =? db then filter (not_conn c) (reg_get r rk) else reg_get r rk.
 Proof. exact fifo_unregister_keeps_order. Qed.
-Theorem c13_fifo_wake_queue : forall s b, b_crashed b = false ->
-  b_wake (snd (process_wakeups s b)) = skipn 32 (b_wake b) \/ b_crashed (snd (process_wakeups s b)) = true.
+(** the wake queue is served from the front, 32 at a time; a wake-up that puts its element back
+    for a client that has gone re-notifies the key, and that request joins the back *)
+Theorem c13_fifo_wake_queue : forall now s b,
+  exists ex, b_wake (snd (process_wakeups now s b)) = skipn 32 (b_wake b) ++ ex.
 Proof. exact fifo_wake_queue. Qed.
 
 (** ---- conservation: pushed = returned + remaining, as a multiset equation per list ----
     Over all histories ([reach_g]) of requests from the list catalogue of the property - LPUSH,
     RPUSH, LPOP, RPOP, BLPOP, BRPOP (any number of keys, any timeout), LLEN, LRANGE, LINDEX,
-    MULTI/EXEC/DISCARD of those, SELECT, PING, well-formed or not - from any number of
-    connections, wake-up and timeout phases at any instants, connects, and disconnects of
-    connections that are not blocked, under the hypotheses of the agreement theorems.
-    P: every element of every push that was answered with an integer; R: every element a client
-    was sent (LPOP/RPOP bulk replies, BLPOP/BRPOP replies at once or at a wake-up). *)
+    MULTI/EXEC/DISCARD of those, SELECT (also queued), PING, well-formed or not - from any number
+    of connections, wake-up and timeout phases at any instants, connects, and clients going
+    away at any time: blocked, with their wake-up under way, or neither.
+    P: every element of every push that was answered with an integer; R: every element written
+    to a connection (LPOP/RPOP bulk replies, BLPOP/BRPOP replies at once or at a wake-up). *)
 Theorem c13_conservation : forall st P R, reach_g st P R ->
   forall db k x, 0 <= db -> ecount (db, k, x) P = ecount (db, k, x) R + occ x (list_at (fst st) db k).
 Proof. exact conservation. Qed.
@@ -145,6 +198,14 @@ Proof. exact conservation. Qed.
 Theorem c13_no_duplicate : forall st P R, reach_g st P R ->
   forall db k x, 0 <= db -> ecount (db, k, x) R <= ecount (db, k, x) P.
 Proof. exact no_duplicate. Qed.
+(** no key of these histories ever has a deadline, so the lazy expiry before every command and
+    at the top of every wake-up removes nothing: the equation has no "expired" term because
+    nothing expires, not because expiry was left out of the model *)
+Theorem c13_no_deadlines : forall st P R, reach_g st P R ->
+  (forall db k e, get_entry (get_db (fst st) db) k = Some e -> e_exp e = None) /\
+  (forall now dbi name parts, s_dbs (lazy_expire now (fst st) dbi name parts) = s_dbs (fst st)) /\
+  (forall now db k, fst (purge_key now (get_db (fst st) db, []) k) = get_db (fst st) db).
+Proof. exact no_deadlines. Qed.
 (** the event loop never ends, whatever the requests (repair e1d4020: a wake-up on a key that
     holds another type by then finds "nothing" instead of propagating WRONGTYPE out of the loop) *)
 Theorem c13_never_crashes : forall pw st, reach pw st -> b_crashed (snd st) = false.
@@ -153,19 +214,19 @@ Theorem c13_history_reachable : forall evs st P R, reach_g st P R -> all_ok_cons
   reach_g (fst (fst (gtrace st P R evs))) (snd (fst (gtrace st P R evs))) (snd (gtrace st P R evs)).
 Proof. exact gtrace_reach. Qed.
 
-(** ---- no stranding: the safety half of "served promptly" (partial: single-key blocking pops) ----
-    Full statement (refuted - classes reregister-no-recheck for multi-key calls,
-    script-push-no-notify): in every reachable state a key that has a waiter holds at most as many
-    elements as wake-ups are under way for it.  Proved for all histories of list-catalogue
-    requests (as for conservation) in which every BLPOP/BRPOP names ONE key. *)
-Theorem c13_no_stranding_partial : forall st, reach_sk st -> no_strand st.
+(** ---- no stranding: the safety half of "served promptly" ----
+    In every state reachable by list-catalogue requests (exactly the histories of the
+    conservation theorem: blocking pops on any number of keys, clients going away at any time -
+    blocked, with their wake-up under way, or neither), a key that has a waiter holds at most as
+    many elements as wake-ups are under way for it.  (Since 0715a3b no hypothesis about
+    disconnects is needed: a wake-up that finds its client gone puts the element back AND
+    notifies the next waiter of the key.) *)
+Theorem c13_no_stranding : forall st P R, reach_g st P R -> no_strand st.
 Proof. exact no_stranding. Qed.
 (** in particular, once the wake-up queue has drained nobody is blocked on a key that holds an element *)
-Theorem c13_no_stranding_drained_partial : forall st, reach_sk st -> b_wake (snd st) = [] ->
+Theorem c13_no_stranding_drained : forall st P R, reach_g st P R -> b_wake (snd st) = [] ->
   forall db k, 0 <= db -> reg_get (b_reg (snd st)) (db, k) <> [] -> list_at (fst st) db k = [].
 Proof. exact no_stranding_drained. Qed.
-Theorem c13_single_key_history_reachable : forall evs st, reach_sk st -> all_ok_sk st evs = true -> reach_sk (run st evs).
-Proof. exact run_reach_sk. Qed.
 
 (** ---- non-vacuity: a history inside every hypothesis ---- *)
 Example c13_good_history :
@@ -182,21 +243,48 @@ Example c13_good_history_conserved :
   snd (fst (gtrace sys0 [] [] w_good)) = [(0, bs "q", bs "a"); (0, bs "q", bs "b"); (0, bs "q", bs "c")] /\
   snd (gtrace sys0 [] [] w_good) = [(0, bs "q", bs "a"); (0, bs "q", bs "c")].
 Proof. vm_compute. repeat split; reflexivity. Qed.
-
-(** ---- known classes: what fails outside the hypotheses ---- *)
-(** blocked-disconnect (open): the pushed element was acknowledged, is not in the list, and
-    the only place it went is the write buffer of a connection whose client is gone *)
-Example c13_conservation_refuted_blocked_disconnect :
-  let st := run sys0 w_disconnect in
-  out_to st 2 = [FInt 1] /\ list_at (fst st) 0 (bs "q") = [] /\
-  out_to st 1 = [FArray [FBulk (bs "q"); FBulk (bs "v")]] /\ b_dead (snd st) = [1] /\ b_crashed (snd st) = false.
+(** FIFO: three clients block on q in the order 1, 2, 3; the element meant for 1 is taken before
+    its wake-up runs (1 keeps its place); three pushes then serve 1, 2, 3 in that order *)
+Example c13_fifo_history :
+  all_ok sys0 w_fifo = true /\
+  let st := run sys0 w_fifo in
+  out_to st 1 = [FArray [FBulk (bs "q"); FBulk (bs "a")]] /\
+  out_to st 2 = [FArray [FBulk (bs "q"); FBulk (bs "b")]] /\
+  out_to st 3 = [FArray [FBulk (bs "q"); FBulk (bs "c")]] /\
+  list_at (fst st) 0 (bs "q") = [] /\ waiting st 0 (bs "q") = [].
 Proof. vm_compute. repeat split; reflexivity. Qed.
-(** pipelined-behind-block (open): the connection asked to wait forever on r, is answered nil,
-    is no longer Blocked - and its registration on r is still there *)
-Example c13_no_leftover_refuted_behind_block :
-  all_ok sys0 w_behind = false /\
-  let st := run sys0 w_behind in
-  out_to st 1 = [FNullArray] /\ b_blk (snd st) = [] /\ waiting st 0 (bs "r") = [1].
+(** no stranding: between the push and the wake-up phase the key holds three elements with two
+    wake-ups under way and nobody left waiting; after it, one element *)
+Example c13_no_stranding_history :
+  all_ok_cons sys0 w_sk = true /\
+  let st := run sys0 w_sk in
+  list_at (fst st) 0 (bs "q") = [bs "a"; bs "b"; bs "c"] /\ wcount 0 (bs "q") (b_wake (snd st)) = 2 /\ waiting st 0 (bs "q") = [] /\
+  let st' := step st (EWakeups 0) in
+  list_at (fst st') 0 (bs "q") = [bs "b"] /\ out_to st' 1 = [FArray [FBulk (bs "q"); FBulk (bs "a")]] /\
+  out_to st' 2 = [FArray [FBulk (bs "q"); FBulk (bs "c")]].
+Proof. vm_compute. repeat split; reflexivity. Qed.
+
+(** ---- the classes that were repaired (all eight): what the witnesses do now ---- *)
+(** blocked-disconnect (fixed c7e6509; was: the element was written to the connection of the
+    client that had gone): the connection is unregistered, the element stays in the list *)
+Example c13_blocked_disconnect_fixed :
+  all_ok_cons sys0 w_disconnect = true /\
+  let st := run sys0 w_disconnect in
+  out_to st 2 = [FInt 1] /\ list_at (fst st) 0 (bs "q") = [bs "v"] /\ out_to st 1 = [] /\
+  waiting st 0 (bs "q") = [] /\ b_blk (snd st) = [] /\ b_dead (snd st) = [].
+Proof. vm_compute. repeat split; reflexivity. Qed.
+(** pipelined-behind-block (fixed 939522b; was: the second call overwrote the Blocked state and
+    left a registration behind): the first call blocks, the rest of the read waits; after the
+    timeout the connection is answered nil, then blocks on r, then the PING still waits *)
+Example c13_pipelined_behind_block_fixed :
+  let s1 := connect (init_server None) 1 in
+  let st1 := serve_batch 0 s1 init_blocking 1 w_behind false in
+  waiting st1 0 (bs "q") = [1] /\ waiting st1 0 (bs "r") = [] /\ out_to st1 1 = [] /\
+  zlookup 1 (b_in (snd st1)) = Some (tl w_behind) /\
+  let st2 := step st1 (ETimeouts 300) in
+  let st3 := process_conns 300 (fst st2) (snd st2) in
+  out_to st3 1 = [FNullArray] /\ waiting st3 0 (bs "q") = [] /\ waiting st3 0 (bs "r") = [1] /\
+  zlookup 1 (b_in (snd st3)) = Some (tl (tl w_behind)).
 Proof. vm_compute. repeat split; reflexivity. Qed.
 (** blocking-in-exec (fixed d076b83; was: a waiter for the connection id 0 in front of the real
     clients, EXEC reply with a NoResponse slot): the queued BLPOP answers nil in its slot, nothing is
@@ -215,26 +303,38 @@ Example c13_wrongtype_at_wake_fixed :
   let st := run sys0 w_wrongtype in
   b_crashed (snd st) = false /\ waiting st 0 (bs "q") = [1] /\ out_to st 1 = [] /\ b_wake (snd st) = [].
 Proof. vm_compute. repeat split; reflexivity. Qed.
-(** requeue-at-back (open): connection 1 blocked before connection 2, yet 2 is served and 1 waits *)
-Example c13_fifo_refuted_requeue_at_back :
+(** requeue-at-back (fixed 8ab686d; was: connection 2, which blocked later, was served and 1
+    waited): connection 1 keeps its place and is served by the next push *)
+Example c13_requeue_at_back_fixed :
   all_ok sys0 w_requeue = true /\
   let st := run sys0 w_requeue in
-  out_to st 2 = [FArray [FBulk (bs "q"); FBulk (bs "b")]] /\ out_to st 1 = [] /\ waiting st 0 (bs "q") = [1].
+  out_to st 1 = [FArray [FBulk (bs "q"); FBulk (bs "b")]] /\ out_to st 2 = [] /\ waiting st 0 (bs "q") = [2].
 Proof. vm_compute. repeat split; reflexivity. Qed.
-(** reregister-no-recheck (open): connection 1 is Blocked and registered on r, r holds an element,
-    no wake-up is under way - in a history of plain list commands satisfying every hypothesis *)
-Example c13_progress_refuted_reregister_no_recheck :
+(** reregister-no-recheck (fixed 8ab686d; was: Blocked beside an element on r with no wake-up
+    under way): the wake-up that finds q empty serves the client from r *)
+Example c13_reregister_no_recheck_fixed :
   all_ok_cons sys0 w_recheck = true /\
   let st := run sys0 w_recheck in
-  list_at (fst st) 0 (bs "r") = [bs "b"] /\ waiting st 0 (bs "r") = [1] /\ b_wake (snd st) = [] /\ out_to st 1 = [].
+  out_to st 1 = [FArray [FBulk (bs "r"); FBulk (bs "b")]] /\ list_at (fst st) 0 (bs "r") = [] /\
+  waiting st 0 (bs "r") = [] /\ waiting st 0 (bs "q") = [] /\ b_wake (snd st) = [] /\ b_blk (snd st) = [].
 Proof. vm_compute. repeat split; reflexivity. Qed.
-(** non-vacuity of the no-stranding theorem: between the push and the wake-up phase the key holds
-    three elements with two wake-ups under way and nobody left waiting; after it, one element *)
-Example c13_single_key_history :
-  all_ok_sk sys0 w_sk = true /\
-  let st := run sys0 w_sk in
-  list_at (fst st) 0 (bs "q") = [bs "a"; bs "b"; bs "c"] /\ wcount 0 (bs "q") (b_wake (snd st)) = 2 /\ waiting st 0 (bs "q") = [] /\
-  let st' := step st EWakeups in
-  list_at (fst st') 0 (bs "q") = [bs "b"] /\ out_to st' 1 = [FArray [FBulk (bs "q"); FBulk (bs "a")]] /\
-  out_to st' 2 = [FArray [FBulk (bs "q"); FBulk (bs "c")]].
+(** script-push-no-notify (fixed e42ab1f; was: the client stayed Blocked beside the element the
+    script pushed): the push made by the script wakes the client *)
+Example c13_script_push_fixed :
+  all_ok sys0 w_script = true /\
+  let st := run sys0 w_script in
+  out_to st 1 = [FArray [FBulk (bs "q"); FBulk (bs "v")]] /\ out_to st 2 = [FInt 1] /\
+  list_at (fst st) 0 (bs "q") = [] /\ waiting st 0 (bs "q") = [].
+Proof. vm_compute. repeat split; reflexivity. Qed.
+
+(** orphan-wakeup-no-renotify (fixed 0715a3b; was: connection 2 stayed Blocked beside the element
+    with no wake-up under way): connection 1 goes away with its wake-up under way; the wake-up puts
+    the element back and notifies connection 2, which the next wake-up phase serves *)
+Example c13_orphan_wakeup_fixed :
+  all_ok_cons sys0 w_orphan = true /\
+  let st := run sys0 w_orphan in
+  list_at (fst st) 0 (bs "q") = [bs "v"] /\ map u_conn (b_wake (snd st)) = [2] /\ wcount 0 (bs "q") (b_wake (snd st)) = 1 /\
+  let st' := step st (EWakeups 0) in
+  out_to st' 2 = [FArray [FBulk (bs "q"); FBulk (bs "v")]] /\ out_to st' 3 = [FInt 1] /\
+  list_at (fst st') 0 (bs "q") = [] /\ b_blk (snd st') = [] /\ b_wake (snd st') = [].
 Proof. vm_compute. repeat split; reflexivity. Qed.
